@@ -26,6 +26,28 @@ def regenerate():
     return gen_copy.generate(os.path.join(vlib.COQ, "gen", "Gen_Copy.v"))
 
 
+def gen_boxed(r, m, n):
+    """every column boxed [0, u], ranged rows around a point: the bound-flipping ratio tester has flips to do and solves take tens of iterations,
+    so that state a ratio tester or pricer carries from one solve of an object into the next changes the pivot path"""
+    from fractions import Fraction as F
+    cols, x0 = [], []
+    for j in range(n):
+        u = F(r.randint(1, 4))
+        cols.append((F(r.randint(-20, 20)), F(0), u))
+        x0.append(u * F(r.randrange(5), 4))
+    rows = []
+    for i in range(m):
+        co = {}
+        for j in range(n):
+            if r.random() < 0.35:
+                co[j] = F(r.choice([a for a in range(-9, 10) if a != 0]))
+        if not co:
+            co[r.randrange(n)] = F(1)
+        act = sum(a * x0[j] for j, a in co.items())
+        rows.append((act - r.randint(0, 5), co, act + r.randint(0, 5)))
+    return lpgen.LP(False, F(0), cols, rows, "boxed")
+
+
 def rng_part(ck, exe):
     """The generator model (coq/RandomModel.v, extracted) against class Random and against the generator inside solver objects."""
     import subprocess
@@ -181,13 +203,20 @@ def main():
                 cmds[k].append(("k%d" % j, line, cfg))
                 txt += line + "\n"
             continue
-        p = lpgen.gen_lp(r, nmax)
+        boxed = (k - len(corpus)) % 12 == 5
+        p = gen_boxed(r, r.randint(8, 14), r.randint(30, 60)) if boxed else lpgen.gen_lp(r, nmax)
         lps.append(p)
         txt += p.text(str(k)) + "\n"
         cmds[k] = []
-        for c in range(2):
+        for c in range(3):
             cfg = lpgen.rand_config(r) if c else {}
             cfg.pop("solution_polishing", None)
+            if c == 2:
+                # a configuration in which a re-solve after clearBasis() (with the generator put back to its seed) reproduces the first solve on
+                # the unchanged tree: no scaler, no steepest-edge pricer, default starter - so that state a component carries from one solve into
+                # the next (ratio tester, pricer, factorization options) is visible as a difference
+                cfg = {"scaler": 0, "pricer": r.choice([1, 2, 3]), "ratiotester": 3 if boxed else r.choice([3, 3, 1, 2]), "simplifier": 0 if boxed else r.choice([0, 1]),
+                       "algorithm": r.randrange(2), "representation": r.randrange(3)}
             if c == 1 and r.random() < 0.25:
                 cfg["starter"] = 3
             if r.random() < 0.15:
